@@ -111,24 +111,6 @@ func classifyEx(mode string, keys []*poolKey, values []int64, tiesFirst bool) (l
 		}
 	}
 	n := len(keys)
-	// Ties come first: two distinct keys that the numeric comparison treats as
-	// the same number (or a NaN next to a number) are a failure class of their
-	// own whatever else is in the set, in every mode that can reach the numeric
-	// comparison. This keeps the mixture classes below free of ties.
-	if tiesFirst && (mode == "numeric" || mode == "contextual" || mode == "date") {
-		var nums []*poolKey
-		for _, k := range keys {
-			if k.kind == kNumber {
-				nums = append(nums, k)
-			}
-		}
-		if equalMagnitudes(nums) {
-			return "numeric", "equal-number-spellings"
-		}
-		if nNaN > 0 && nNum > 0 {
-			return "numeric", "nan-key"
-		}
-	}
 	switch mode {
 	case "text":
 		return "text", "any-keys"
@@ -167,6 +149,24 @@ func classifyEx(mode string, keys []*poolKey, values []int64, tiesFirst bool) (l
 		}
 		fallthrough
 	case "numeric":
+		// Ties come first: two distinct keys that the numeric comparison
+		// treats as the same number (or a NaN next to a number) are a failure
+		// class of their own whatever else is in the set. This keeps
+		// "mixed-number-text" free of ties.
+		if tiesFirst {
+			var nums []*poolKey
+			for _, k := range keys {
+				if k.kind == kNumber {
+					nums = append(nums, k)
+				}
+			}
+			if equalMagnitudes(nums) {
+				return "numeric", "equal-number-spellings"
+			}
+			if nNaN > 0 && nNum > 0 {
+				return "numeric", "nan-key"
+			}
+		}
 		nonNum := n - nNum - nNaN
 		switch {
 		case nNum+nNaN > 0 && nonNum > 0:
